@@ -69,32 +69,38 @@ def column (arr : List Val) (rows sp k : Nat) : List Val :=
 
 /-! ### `NaiveForecaster.fit`: validation and window-length resolution -/
 
+/-- the strategy branches of `fit`: validation and the raw `window_length_` -/
+def resolveWindow (st : Strategy) (sp : Int) (wl : Option Int) (n : Nat) : Except Err Int :=
+  match st with
+  | .last =>
+    if sp = 1 then .ok 1
+    else if sp < 1 then .error .value                          -- check_sp
+    else .ok sp
+  | .mean =>
+    match wl with
+    | some w =>
+      if sp ≠ 1 ∧ w < sp then .error .value                    -- window_length < sp
+      else if w < 1 then .error .value                         -- check_window_length
+      else if sp < 1 then .error .value                        -- check_sp
+      else .ok w
+    | none => if sp < 1 then .error .value else .ok (n : Int)
+  | .drift =>
+    match wl with
+    | some w =>
+      if w < 1 then .error .value                              -- check_window_length
+      else if w = 1 then .error .value                         -- "must be greater than one"
+      else .ok w
+    | none => .ok (n : Int)
+  | .other => .error .value                                    -- unknown strategy
+
 /-- returns `window_length_`; `n = len(y)`; `sp`, `wl` as passed to the constructor -/
-def fitWindow (st : Strategy) (sp : Int) (wl : Option Int) (n : Nat) : Except Err Nat := do
-  if n = 0 then throw .value                                   -- check_y(allow_empty=False)
-  let w : Int ← match st with
-    | .last =>
-      if sp = 1 then pure 1
-      else if sp < 1 then throw .value                         -- check_sp
-      else pure sp
-    | .mean =>
-      match wl with
-      | some w =>
-        if sp ≠ 1 ∧ w < sp then throw .value                   -- window_length < sp
-        else if w < 1 then throw .value                        -- check_window_length
-        else if sp < 1 then throw .value                       -- check_sp
-        else pure w
-      | none => if sp < 1 then throw .value else pure (n : Int)
-    | .drift =>
-      match wl with
-      | some w =>
-        if w < 1 then throw .value                             -- check_window_length
-        else if w = 1 then throw .value                        -- "must be greater than one"
-        else pure w
-      | none => pure (n : Int)
-    | .other => throw .value                                   -- unknown strategy
-  if w > (n : Int) then throw .value                           -- larger than the training series
-  pure w.toNat
+def fitWindow (st : Strategy) (sp : Int) (wl : Option Int) (n : Nat) : Except Err Nat :=
+  if n = 0 then .error .value                                  -- check_y(allow_empty=False)
+  else match resolveWindow st sp wl n with
+    | .error e => .error e
+    | .ok w =>
+      if w > (n : Int) then .error .value                      -- larger than the training series
+      else .ok w.toNat
 
 /-! ### `_predict_last_window` -/
 
